@@ -1712,6 +1712,13 @@ class Explorer(_BaseCtx):
             else:
                 self.inconclusive.append(f"unknown: {label}")
                 return None
+        if z3.is_eq(fs) and fs.arg(0).sort() == z3.RealSort():
+            # prefer a counterexample that violates the equality by a margin: it survives the float64 replay tolerance
+            a_, b_ = fs.arg(0), fs.arg(1)
+            margin = z3.RealVal("1/1000")
+            r4, m4 = self._check(z3.Or(a_ - b_ >= margin, b_ - a_ >= margin))
+            if r4 == z3.sat:
+                m = m4
         self.violations.append(dict(kind="obligation", label=label, model=self.model_dict(m), decisions=list(self.trace),
                                     formula=str(f)[:2000]))
         return False
@@ -1813,6 +1820,9 @@ class Explorer(_BaseCtx):
                 self.inconclusive.append(f"unsupported: {e} @ {_where_raised(e)}")
                 continue
             except Exception as e:  # an ordinary exception escaping gemseo on a feasible path
+                if _where_raised(e) == "?":
+                    # no gemseo frame in the traceback: the harness itself failed -> harness error, never a property verdict
+                    raise RuntimeError(f"harness code raised {type(e).__name__}: {e} @ {_tb_tail(e, 3)}") from e
                 r, m = self._check()
                 if r == z3.sat:
                     self.violations.append(dict(kind="exception", label=f"exception:{type(e).__name__}",
